@@ -292,7 +292,8 @@ def body_requests(tier="quick"):
 class Tree:
     def __init__(self):
         self.dir = tempfile.mkdtemp(prefix="c04-", dir=os.environ.get("VERIF_SCRATCH", "/tmp"))
-        files = {"file.txt": b"0123456789abcdef", "index.html": b"<root>", "é.txt": b"e-acute", "guide/index.html": b"<guide>", "guide/page.html": b"<page>", "x.html": b"<x>", "empty/.keep": b""}
+        files = {"file.txt": b"0123456789abcdef", "index.html": b"<root>", "é.txt": b"e-acute", "guide/index.html": b"<guide>", "guide/page.html": b"<page>", "x.html": b"<x>", "empty/.keep": b"",
+                 "guide.html": b"<a page named like the directory next to it>", "file.txt.html": b"<a page named like a file plus .html>"}
         for rel, data in files.items():
             p = os.path.join(self.dir, rel)
             os.makedirs(os.path.dirname(p), exist_ok=True)
@@ -396,7 +397,8 @@ def run_shard(desc, tier):
         # JSON texts in every encoding json.loads() would guess from bytes, with a byte order mark, with encoded lone surrogates,
         # invalid bytes and odd values, under Content-Type with no / known / unknown charset: both interfaces must read the same value
         apps = {i: echo_app(i) for i in ("wsgi", "asgi")}
-        texts = ['{"a": 1}', '"é中"', "[]", "", " ", "nul", "NaN", "1e999", '{"a":1,"a":2}', "[" * 30 + "]" * 30, '"\ud800"', "\ufeff{}", "12345678901234567890123", "'x'"]
+        texts = ['{"a": 1}', '"é中"', "[]", "", " ", "nul", "NaN", "1e999", '{"a":1,"a":2}', "[" * 30 + "]" * 30, '"\ud800"', "\ufeff{}", "12345678901234567890123", "'x'",
+                 "9" * 4300, "9" * 4301, "[" + "1" * 5000 + "]", "-" + "7" * 6000, "1." + "0" * 5000, "1e" + "9" * 5000]
         bodies = []
         for t in texts:
             for enc in ("utf-8", "utf-8-sig", "utf-16", "utf-16-le", "utf-16-be", "utf-32", "utf-32-le", "latin-1"):
@@ -463,6 +465,25 @@ def run_shard(desc, tier):
         for skind, n, raise_at in stream_recipes(4):
             apps = {i: (lambda i=i: (lambda *a: build_stream(i, skind, n, raise_at)(*a)))() for i in ("wsgi", "asgi")}
             compare(r, f"stream:{skind} n={n} raise_at={raise_at}", apps, SV.AReq(), "GET", sse=skind == "sse")
+        # a producer that yields one and the same object again and again (an event dictionary kept in a variable, a bytes constant)
+        def same_object(i, skind, times):
+            item = b"tick;" if skind == "stream" else {"event": "tick", "data": "a\nb", "id": "7"}
+            m = mod(i)
+            if i == "wsgi":
+                def g():
+                    for _ in range(times):
+                        yield item
+                it = g()
+            else:
+                async def ag():
+                    for _ in range(times):
+                        yield item
+                it = ag()
+            return m.StreamResponse(it) if skind == "stream" else m.SendEventResponse(it, ping_interval=30)
+        for skind in ("stream", "sse"):
+            for times in (1, 2, 3):
+                apps = {i: (lambda i=i: (lambda *a: same_object(i, skind, times)(*a)))() for i in ("wsgi", "asgi")}
+                compare(r, f"stream:{skind} same object x{times}", apps, SV.AReq(), "GET", sse=skind == "sse")
         # constructor arguments of the streaming classes: no headers at all (several objects one after another), headers that
         # contain a Content-Type of their own (any case), status, explicit content_type / charset, and HEAD
         def items(i, skind):
